@@ -1,8 +1,9 @@
+import TplModel.Props.Loader
 import TplModel.Props.RenderProps
 import TplModel.Props.C05sort
 import TplModel.Props.C05refine
 /-! # C05 — directives on one element compose in the documented order, each applied once
 
-OBLIGATIONS: C05.weights_documented_order, C05.lt_strict_weak, C05.sortedAttrs_perm, C05.sortedAttrs_sorted, C05.sortedAttrs_stable, C05.sorted_order, C05.sort_order_independent, RN.exec_refines_ref, RN.execute_refines, RN.ref_mono, RN.Props.remove_modes_exact, RN.Props.define_emits_nothing, RN.Props.replace_substitutes, RN.Props.insert_wraps, RN.Props.insert_no_children, RN.Props.dynamic_overrides_static, RN.Props.no_directive_leaks
+OBLIGATIONS: C05.weights_documented_order, C05.lt_strict_weak, C05.sortedAttrs_perm, C05.sortedAttrs_sorted, C05.sortedAttrs_stable, C05.sorted_order, C05.sort_order_independent, RN.exec_refines_ref, RN.execute_refines, RN.ref_mono, RN.Props.remove_modes_exact, RN.Props.define_emits_nothing, RN.Props.replace_substitutes, RN.Props.insert_wraps, RN.Props.insert_no_children, RN.Props.dynamic_overrides_static, RN.Props.no_directive_leaks, EN.loaded_manager_ok, EN.execute_refines_loaded, EN.exec_refines_loaded
 
 `C05.weights_documented_order` is proved over the weight table re-extracted from html/tag.go on every run. -/
